@@ -2,11 +2,11 @@ package main
 
 import (
 	"bytes"
-	"io"
 	"crypto/sha1"
 	"encoding/hex"
 	"encoding/json"
 	"fmt"
+	"io"
 	"os"
 	"os/exec"
 	"path/filepath"
@@ -36,12 +36,12 @@ type planStep struct {
 }
 
 type plan struct {
-	Name       string      `json:"name"`
-	Steps      []planStep  `json:"steps,omitempty"` // sequential interleaving
-	Concurrent [][]docOp   `json:"concurrent,omitempty"`
-	NDocs      int         `json:"ndocs"`
-	Origin     string      `json:"origin,omitempty"` // how the documents come into being: "" = New, "template", "opened"
-	OriginA    int         `json:"origin_a,omitempty"`
+	Name       string     `json:"name"`
+	Steps      []planStep `json:"steps,omitempty"` // sequential interleaving
+	Concurrent [][]docOp  `json:"concurrent,omitempty"`
+	NDocs      int        `json:"ndocs"`
+	Origin     string     `json:"origin,omitempty"` // how the documents come into being: "" = New, "template", "opened"
+	OriginA    int        `json:"origin_a,omitempty"`
 }
 
 // originBase: a document with a chosen number of relationship-creating elements (headers, footers, lists, notes,
